@@ -496,6 +496,7 @@ SHAPES = ["line", "polyline", "polygon", "circle", "ellipse", "rect"]
 
 
 # ------------------------------------------------------------------ driver
+SECOND = "lCsAz"
 THIRD = "lCsA"
 
 
@@ -508,8 +509,8 @@ def cases(tier, seed):
             if first == "m" and k > 2:
                 continue
             for rest in itertools.product(LETTERS, repeat=k):
-                if k == 3 and rest[2] not in THIRD:
-                    continue  # third letter: one spelling of every command kind (full 20^3 takes > 1 h)
+                if k == 3 and (rest[1] not in SECOND or rest[2] not in THIRD):
+                    continue  # 20 x 5 x 4 walks (the full 20^3 takes > 1 h)
                 cs.append({"kind": "walk", "seq": first + "".join(rest)})
     if tier == "quick":
         # targeted k=3: (second moveto | line) then closepath then every letter
@@ -518,7 +519,7 @@ def cases(tier, seed):
             for y in LETTERS:
                 cs.append({"kind": "walk", "seq": "M" + x + "z" + y, "sub": True})
     if tier != "quick":
-        for rest in itertools.product(SUB4, SUB4, "zCsQt", "z"):
+        for rest in itertools.product(SUB4, "lzQ", "Cs", "z"):
             cs.append({"kind": "walk", "seq": "M" + "".join(rest), "sub": True})
     return cs
 
@@ -622,7 +623,7 @@ def describe(tier):
             "data; every numeric argument is a z3 real; the oracle is an independent SVG path interpreter applied to input and output."
         ),
         "bounds": {
-            "letters_after_initial_moveto": f"all 20^k sequences for k<=2, initial M and m" + ("; plus M{m,M,l,L,q}z{any letter}" if tier == "quick" else "; k=3 after M: 20 x 20 x (l C s A); k=4 over MmLlzCcSsQqTt x MmLlzCcSsQqTt x zCsQt x z"),
+            "letters_after_initial_moveto": f"all 20^k sequences for k<=2, initial M and m" + ("; plus M{m,M,l,L,q}z{any letter}" if tier == "quick" else "; k=3 after M: 20 x (l C s A z) x (l C s A); k=4 over MmLlzCcSsQqTt x (l z Q) x (C s) x z"),
             "arc_flags": "2 of 4 (large,sweep) pairs per arc (quick) / all 4 (thorough, k<=2)",
             "numbers": "all reals (unbounded); multiple_of > 0; shape sizes >= 0",
             "tolerance": "point equality within 1e-9*(#commands+1) where _rewrite_path may snap; exact elsewhere",
